@@ -250,13 +250,39 @@ impl Compiler {
         Ok(())
     }
 
+    /// Compiles a block statement that is used as an expression (eg. the body of an if or while expression)
+    /// This always leaves exactly one value on the stack: the value of the last statement if that was an expression, NULL otherwise.
+    fn compile_block_expression(&mut self, stmts: &[Stmt]) -> Result<(), Error> {
+        self.compile_block_statement(stmts)?;
+
+        // an empty block statement already pushed its NULL
+        if stmts.is_empty() {
+            return Ok(());
+        }
+
+        if self.last_instruction_is(OpCode::Pop) {
+            self.remove_last_instruction();
+        } else {
+            self.emit_opcode(OpCode::Null);
+        }
+        Ok(())
+    }
+
     fn compile_statement(&mut self, stmt: &Stmt) -> Result<(), Error> {
         match stmt {
             Stmt::Expr(expr) => {
                 self.compile_expression(expr)?;
                 self.emit_opcode(OpCode::Pop);
             }
-            Stmt::Block(stmts) => self.compile_block_statement(stmts)?,
+            Stmt::Block(stmts) => {
+                if stmts.is_empty() {
+                    // an empty block leaves nothing on the stack when used as a statement
+                    // make sure an enclosing block does not mistake an earlier POP for ours
+                    self.last_instruction = None;
+                } else {
+                    self.compile_block_statement(stmts)?;
+                }
+            }
             Stmt::Let(name, value) => {
                 let symbol = self.symbols.define(name);
                 self.compile_expression(value)?;
@@ -506,11 +532,7 @@ impl Compiler {
                 self.emit_opcode(OpCode::JumpIfFalse);
                 self.emit_u16(JUMP_PLACEHOLDER);
 
-                self.compile_block_statement(consequence)?;
-
-                if self.last_instruction_is(OpCode::Pop) {
-                    self.remove_last_instruction();
-                }
+                self.compile_block_expression(consequence)?;
 
                 let pos_jump = self.instructions.len();
                 self.emit_opcode(OpCode::Jump);
@@ -522,10 +544,7 @@ impl Compiler {
                 );
 
                 if let Some(alternative) = alternative {
-                    self.compile_block_statement(alternative)?;
-                    if self.last_instruction_is(OpCode::Pop) {
-                        self.remove_last_instruction();
-                    }
+                    self.compile_block_expression(alternative)?;
                 } else {
                     self.emit_opcode(OpCode::Null);
                 }
@@ -545,13 +564,7 @@ impl Compiler {
                 self.emit_opcode(OpCode::JumpIfFalse);
                 self.emit_u16(JUMP_PLACEHOLDER);
                 self.emit_opcode(OpCode::Pop);
-                self.compile_block_statement(body)?;
-
-                if self.last_instruction_is(OpCode::Pop) {
-                    self.remove_last_instruction();
-                } else {
-                    self.emit_opcode(OpCode::Null);
-                }
+                self.compile_block_expression(body)?;
 
                 // emit jump instruction to loop condition
                 self.emit_opcode(OpCode::Jump);
